@@ -80,8 +80,8 @@ P(i)      == X(i)
 XV(f, j)  == X(NP(f) + j)
 
 (* ------------------------------------------------------------- validity *)
-(* Degenerate boundary values (theta in {0,1} for Binomial, p = 1 for the  *)
-(* Geometric, p in {0,1} for the Negative Binomial, zero weights, a zero   *)
+(* Degenerate boundary values (theta in {0,1} for Binomial, p in {0,1} for *)
+(* the Negative Binomial, zero mixture weights, a zero                     *)
 (* probability in the Categorical) are neither required to be accepted nor *)
 (* to be rejected: they do not occur in the grids.                         *)
 SPD2(s11, s12, s22) == Pos(s11) /\ Pos(RSub(RMul(s11, s22), RMul(s12, s12)))
@@ -95,7 +95,7 @@ Valid(f, p) ==
     [] f = "powerlaw"             -> RLt(I(1), p[1]) /\ Pos(p[2])
     [] f = "binomial"             -> Pos(p[1]) /\ RLt(p[1], I(1)) /\ IsInt(p[2]) /\ NonNeg(p[2])
     [] f = "negbinomial"          -> Pos(p[1]) /\ Pos(p[2]) /\ RLt(p[2], I(1))
-    [] f = "geometric"            -> Pos(p[1]) /\ RLt(p[1], I(1))
+    [] f = "geometric"            -> Pos(p[1]) /\ RLe(p[1], I(1))     \* p = 1: all mass at 0
     [] f = "categorical"          -> Pos(p[1]) /\ Pos(p[2]) /\ Pos(p[3]) /\ REq(RAdd(p[1], RAdd(p[2], p[3])), I(1))
     [] f = "delta"                -> TRUE
     [] f = "logt_normal"          -> Pos(p[2]) /\ NonNeg(p[3])
@@ -153,7 +153,7 @@ ParamSet0(f) ==
     [] f = "binomial"    -> Cross2({R(1, 4), R(1, 2), R(3, 4), R(1, 10)}, {I(0), I(1), I(4), I(6)}) \cup {<<R(-1, 4), I(3)>>, <<R(5, 4), I(3)>>, <<R(1, 2), I(-1)>>}
     [] f = "negbinomial" -> Cross2({I(1), I(2), I(3), R(1, 2), R(5, 2)}, {R(1, 4), R(1, 2), R(3, 4)}) \cup {<<I(0), R(1, 2)>>, <<I(-1), R(1, 2)>>, <<I(2), R(-1, 4)>>, <<I(2), R(5, 4)>>}
     [] f = "poisson"     -> {<<R(1, 2)>>, <<I(1)>>, <<I(2)>>, <<I(3)>>, <<I(5)>>, <<I(0)>>, <<I(-1)>>}
-    [] f = "geometric"   -> {<<R(1, 10)>>, <<R(1, 4)>>, <<R(1, 2)>>, <<R(3, 4)>>, <<R(9, 10)>>, <<I(0)>>, <<R(-1, 4)>>, <<R(5, 4)>>}
+    [] f = "geometric"   -> {<<R(1, 10)>>, <<R(1, 4)>>, <<R(1, 2)>>, <<R(3, 4)>>, <<R(9, 10)>>, <<I(1)>>, <<I(0)>>, <<R(-1, 4)>>, <<R(5, 4)>>}
     [] f = "categorical" -> {<<R(1, 4), R(1, 4), R(1, 2)>>, <<R(1, 3), R(1, 3), R(1, 3)>>, <<R(1, 10), R(1, 5), R(7, 10)>>, <<R(1, 2), R(3, 8), R(1, 8)>>,
                              <<R(-1, 4), R(3, 4), R(1, 2)>>, <<R(1, 2), R(-1, 2), I(1)>>}
     [] f = "delta"       -> {<<I(0)>>, <<I(1)>>, <<R(-1, 2)>>}
@@ -209,7 +209,9 @@ Supp(f, p, xs) ==
     [] f = "exponential" -> IF x.n < 0 THEN "out" ELSE "in"
     [] f = "powerlaw"    -> IF RLt(x, p[2]) THEN "out" ELSE "in"
     [] f = "binomial"    -> IF ~IsInt(x) THEN "nonint" ELSE IF x.n < 0 \/ RLt(p[2], x) THEN "out" ELSE "in"
-    [] f \in {"negbinomial", "poisson", "geometric"} -> IF ~IsInt(x) THEN "nonint" ELSE IF x.n < 0 THEN "out" ELSE "in"
+    [] f \in {"negbinomial", "poisson"} -> IF ~IsInt(x) THEN "nonint" ELSE IF x.n < 0 THEN "out" ELSE "in"
+    [] f = "geometric"   -> IF ~IsInt(x) THEN "nonint" ELSE IF x.n < 0 THEN "out"
+                            ELSE IF REq(p[1], I(1)) /\ x.n > 0 THEN "out" ELSE "in"
     [] f = "categorical" -> IF ~IsInt(x) THEN "nonint" ELSE IF x.n < 0 \/ x.n > 2 THEN "out" ELSE "in"
     [] f = "delta"       -> IF REq(x, p[1]) THEN "in" ELSE "out"
     [] f = "logt_normal" -> IF x.n < 0 THEN "out" ELSE IF RAdd(x, p[3]).n = 0 THEN "out" ELSE "in"
@@ -228,6 +230,7 @@ Class(s) == CASE s = "in" -> "finite" [] s = "out" -> "neginf" [] s = "bd" -> "b
 (* formula variant that applies at the point (mixtures: which components    *)
 (* contain x in their support; categorical: which probability)              *)
 Variants(f) == CASE f = "categorical"    -> <<"k0", "k1", "k2">>
+                 [] f = "geometric"      -> <<"std", "p1">>
                  [] f = "mix_normal_exp" -> <<"a", "ab">>
                  [] f = "mix_exp_pareto" -> <<"a", "ab">>
                  [] OTHER -> <<"std">>
@@ -235,6 +238,7 @@ Variant(f, p, xs) ==
   CASE f = "categorical"    -> IF IsInt(xs[1]) /\ xs[1].n \in 0..2 THEN <<"k0", "k1", "k2">>[xs[1].n + 1] ELSE "k0"
     [] f = "mix_normal_exp" -> IF xs[1].n < 0 THEN "a" ELSE "ab"
     [] f = "mix_exp_pareto" -> IF RLt(xs[1], p[4]) THEN "a" ELSE "ab"
+    [] f = "geometric"      -> IF REq(p[1], I(1)) THEN "p1" ELSE "std"
     [] OTHER -> "std"
 
 (* ------------------------------------------------------ evaluation points *)
@@ -361,7 +365,8 @@ LP(f, v) ==
     [] f = "binomial"    -> LPBinomial(P(1), P(2), x)
     [] f = "negbinomial" -> LPNegBin(P(1), P(2), x)
     [] f = "poisson"     -> LPPoisson(P(1), x)
-    [] f = "geometric"   -> LPGeometric(P(1), x)
+    (* p = 1: the whole mass sits at k = 0 and (1-p)^0 = 1 *)
+    [] f = "geometric"   -> IF v = "p1" THEN Log(P(1)) ELSE LPGeometric(P(1), x)
     [] f = "categorical" -> Log(P(CASE v = "k0" -> 1 [] v = "k1" -> 2 [] v = "k2" -> 3))
     [] f = "delta"       -> Zero
     (* density of Y = exp(Z) - c for Z ~ base:  f(log(x+c)) / (x+c) *)
@@ -426,6 +431,10 @@ Side(f, p, xs) ==
     [] f \in {"gamma", "chisq", "exponential"} -> "below"
     [] f = "categorical" -> IF x.n < 0 THEN "below" ELSE "above"
     [] OTHER -> "below"
+
+(* points where density / distribution function are not differentiable (the   *)
+(* derivative of |.| at 0 is a tie, DESIGN 3.6)                               *)
+Kink(f, p, xs) == f = "laplace" /\ REq(xs[1], p[1])
 
 (* ------------------------------------------- layout of the parameter vector *)
 PVec(f) ==
@@ -573,7 +582,7 @@ Eval(w, xs) ==
   /\ w = 2 => b # 0
   /\ LET p == Cur(w)  s == Supp(fam, p, xs) IN
      Out([k |-> "t", op |-> "eval", fam |-> fam, a |-> a, b |-> b, w |-> w, j |-> 0, x |-> xs,
-          cls |-> Class(s), v |-> Variant(fam, p, xs),
+          cls |-> Class(s), v |-> Variant(fam, p, xs), kink |-> Kink(fam, p, xs),
           side |-> IF s = "out" THEN Side(fam, p, xs) ELSE "in"])
   /\ UNCHANGED vars
 
